@@ -8,8 +8,8 @@ run in its quick tier against that worktree (VERIF_REPO).  Writes
 """
 import os, subprocess, sys, json, time
 
-WT = "/tmp/wt_mut"
-V = "/verif"
+V = os.path.dirname(os.path.dirname(os.path.abspath(__file__)))
+WT = "/tmp/wt_mut_%d" % os.getpid()
 BIN = V + "/sim/target/release/h263-sim"
 ENV = dict(os.environ, CARGO_NET_OFFLINE="true", VERIF_REPO=WT, VERIF_DIR=V)
 
@@ -145,6 +145,7 @@ def main():
     reset()
     sh(f"git -C /repo worktree remove --force {WT}")
     sh(f"cd {V} && ./check build", env=dict(os.environ, CARGO_NET_OFFLINE="true"))
+    os.makedirs(V + "/.scratch", exist_ok=True)
     json.dump(rows, open(V + "/.scratch/mutants.json", "w"), indent=1)
     return rows
 
